@@ -438,10 +438,139 @@ example :
 
 /-- With the default route given its destination (`normRoute true`: what a repaired source does,
     `Gen.Plugin.routeDefaultWithoutDst`), the model meets the documented oracle on every dump. -/
-theorem holds_model_routes_doc (msgs : List RouteMsg) (failed : Bool) :
-    Spec.C13Addresser.holdsRoutesDoc msgs failed (routesByIndex (msgs.map (normRoute true)) failed) = true := by
-  unfold Spec.C13Addresser.holdsRoutesDoc
+theorem holds_model_routes_doc_strict (msgs : List RouteMsg) (failed : Bool) :
+    Spec.C13Addresser.holdsRoutesDocStrict msgs failed (routesByIndex (msgs.map (normRoute true)) failed) = true := by
+  unfold Spec.C13Addresser.holdsRoutesDocStrict
   exact holds_model_routes _ failed
+
+/-! ### IPv4-mapped entries and peer addresses (findings F-27, F-28)
+
+  The documented oracles (`holdsAddrsDoc`, `holdsRoutesDoc`) do not count an IPv4-mapped entry
+  as a broken invariant and take the interface's own address from IFA_LOCAL. The model — which
+  mirrors the source — meets them on every dump *without* such entries; the witnesses below show
+  it failing on the smallest dumps with one, which is what the check reports against the real
+  functions (known findings, see known_findings.txt). -/
+
+theorem wellFormedRoute_split (m : RouteMsg) :
+    wellFormedRoute m = (wellFormedRouteDoc m && !mapped m.dst) := by
+  unfold wellFormedRoute wellFormedRouteDoc mapped
+  cases m.isRoute <;> cases m.dst.valid <;> cases m.dst.v4 <;> simp [bne]
+
+theorem zipAllR_doc (ms : List RouteMsg) (l : List SysRoute) (h : zipAllR ms l = true) :
+    zipAllRDoc ms l = true := by
+  induction ms generalizing l with
+  | nil => cases l with
+    | nil => rfl
+    | cons _ _ => simp [zipAllR] at h
+  | cons m ms ih => cases l with
+    | nil => simp [zipAllR] at h
+    | cons a as =>
+      simp only [zipAllR, Bool.and_eq_true] at h
+      simp only [zipAllRDoc, Bool.or_eq_true, Bool.and_eq_true]
+      exact Or.inl ⟨h.1, ih as h.2⟩
+
+/-- On a dump without IPv4-mapped routes the model meets the documented oracle. -/
+theorem holds_model_routes_doc (msgs : List RouteMsg) (failed : Bool)
+    (hm : (msgs.map (normRoute true)).all (fun m => !mapped m.dst) = true) :
+    Spec.C13Addresser.holdsRoutesDoc msgs failed (routesByIndex (msgs.map (normRoute true)) failed) = true := by
+  have hs := holds_model_routes (msgs.map (normRoute true)) failed
+  unfold Spec.C13Addresser.holdsRoutesDoc
+  unfold holdsRoutes at hs
+  generalize msgs.map (normRoute true) = ms at hm hs ⊢
+  have hall : ms.all wellFormedRoute = ms.all wellFormedRouteDoc := by
+    rw [List.all_eq_true] at hm
+    rw [Bool.eq_iff_iff, List.all_eq_true, List.all_eq_true]
+    constructor <;> intro h m hmem <;> have := h m hmem <;>
+      rw [wellFormedRoute_split, hm m hmem, Bool.and_true] at * <;> assumption
+  simp only [hall] at hs
+  simp only
+  by_cases h1 : (failed || ms.isEmpty) = true
+  · simpa [h1] using hs
+  · simp only [h1] at hs ⊢
+    cases h2 : ms.all wellFormedRouteDoc
+    · simpa [h2] using hs
+    · simp only [h2, Bool.not_true, Bool.false_eq_true, if_false] at hs ⊢
+      cases hr : routesByIndex ms failed with
+      | ok l => rw [hr] at hs; exact zipAllR_doc ms l hs
+      | nil e => rw [hr] at hs; cases hs
+      | panic => rw [hr] at hs; cases hs
+
+theorem wellFormedAddr_split (m : AddrMsg) (hl : m.loc = none) :
+    wellFormedAddr m = (wellFormedAddrDoc m && !mapped m.ip) := by
+  unfold wellFormedAddr wellFormedAddrDoc mapped
+  rw [hl]
+  cases m.isAddr <;> cases m.hasAttrs <;> cases m.ip.valid <;> cases m.ip.v4 <;> simp [bne]
+
+theorem zipAll_doc (ms : List AddrMsg) (l : List SysIP) (hl : ∀ m ∈ ms, m.loc = none)
+    (h : zipAll ms l = true) : zipAllDoc ms l = true := by
+  induction ms generalizing l with
+  | nil => cases l with
+    | nil => rfl
+    | cons _ _ => simp [zipAll] at h
+  | cons m ms ih => cases l with
+    | nil => simp [zipAll] at h
+    | cons a as =>
+      simp only [zipAll, Bool.and_eq_true] at h
+      simp only [zipAllDoc, Bool.or_eq_true, Bool.and_eq_true]
+      refine Or.inl ⟨?_, ih as (fun m hm => hl m (List.mem_cons_of_mem _ hm)) h.2⟩
+      have : ({ m with ip := ownAddr m } : AddrMsg) = m := by
+        have hloc := hl m (List.mem_cons_self ..)
+        cases m with
+        | mk _ _ _ _ _ _ _ loc => simp only at hloc; subst hloc; rfl
+      unfold entryOfDoc; rw [this]; exact h.1
+
+/-- On a dump without peer addresses and IPv4-mapped addresses the model meets the documented
+    oracle. -/
+theorem holds_model_addrs_doc (msgs : List AddrMsg) (failed : Bool)
+    (hl : ∀ m ∈ msgs, m.loc = none) (hm : msgs.all (fun m => !mapped m.ip) = true) :
+    holdsAddrsDoc msgs failed (addressesByIndex msgs failed) = true := by
+  have hs := holds_model_addrs msgs failed
+  unfold holdsAddrsDoc
+  unfold holdsAddrs at hs
+  have hall : msgs.all wellFormedAddr = msgs.all wellFormedAddrDoc := by
+    rw [List.all_eq_true] at hm
+    rw [Bool.eq_iff_iff, List.all_eq_true, List.all_eq_true]
+    constructor <;> intro h m hmem <;> have := h m hmem <;>
+      rw [wellFormedAddr_split m (hl m hmem), hm m hmem, Bool.and_true] at * <;> assumption
+  simp only [hall] at hs
+  by_cases h1 : (failed || msgs.isEmpty) = true
+  · simpa [h1] using hs
+  · simp only [h1] at hs ⊢
+    cases h2 : msgs.all wellFormedAddrDoc
+    · simpa [h2] using hs
+    · simp only [h2, Bool.not_true, Bool.false_eq_true, if_false] at hs ⊢
+      cases hr : addressesByIndex msgs failed with
+      | ok l => rw [hr] at hs; exact zipAll_doc msgs l hl hs
+      | nil e => rw [hr] at hs; cases hs
+      | panic => rw [hr] at hs; cases hs
+
+/-- F-27: an IPv4-mapped address on the interface (`ip -6 addr add ::ffff:192.0.2.9/128 dev eth0`)
+    or an IPv4-mapped route on the loopback interface (`unreachable ::ffff:0.0.0.0/96 dev lo`):
+    the documented answer leaves it out or passes it on; the source panics. -/
+theorem v4mapped_witness :
+    let a : AddrMsg := { ip := { val := 0xffffc0000209 }, plen := 128 }
+    let g : AddrMsg := { ip := { val := 0x20010db8000000010000000000000001 } }
+    let r : RouteMsg := { dst := { val := 0xffff00000000 }, dlen := 96, oif := 1 }
+    addressesByIndex [g, a] false = .panic ∧
+    holdsAddrsDoc [g, a] false .panic = false ∧ mappedAddrClass [g, a] false .panic = true ∧
+    holdsAddrsDoc [g, a] false (.ok [mkIP g]) = true ∧ holdsAddrsDoc [g, a] false (.ok [mkIP g, mkIP a]) = true ∧
+    routesByIndex [r] false = .panic ∧
+    holdsRoutesDoc [r] false .panic = false ∧ mappedRouteClass [r] false .panic = true ∧
+    holdsRoutesDoc [r] false (.nil false) = true ∧ holdsRoutesDoc [r] false (.ok [mkRoute r]) = true := by
+  decide
+
+/-- F-28: an address with a peer (`ip addr add 2001:db8:5::1 peer 2001:db8:6::2/64 dev eth0`):
+    the interface's own address is the IFA_LOCAL one; the source reports the peer's. -/
+theorem peer_witness :
+    let own : IP := { val := 0x20010db8000500000000000000000001 }
+    let peer : IP := { val := 0x20010db8000600000000000000000002 }
+    let m : AddrMsg := { ip := peer, plen := 64, loc := some own }
+    addressesByIndex [m] false = .ok [{ addr := ⟨peer, 64⟩ }] ∧
+    holdsAddrsDoc [m] false (.ok [{ addr := ⟨peer, 64⟩ }]) = false ∧
+    peerClass [m] false (.ok [{ addr := ⟨peer, 64⟩ }]) = true ∧
+    holdsAddrsDoc [m] false (.ok [{ addr := ⟨own, 64⟩ }]) = true ∧
+    advertisedRDNSS [] [m] false = some [peer] := by
+  decide
 
 /-- The kernel's default route — no destination attribute, destination length 0 — on the
     loopback interface: the documented answer is the route `::/0`; the pinned source (no special
